@@ -192,8 +192,7 @@ func (s *JavaFullListener) EnterInterfaceBodyDeclaration(ctx *parser.InterfaceBo
 	hasEnterClass = true
 	for _, modifier := range ctx.AllModifier() {
 		modifier := modifier.(*parser.ModifierContext).GetChild(0)
-		if reflect.TypeOf(modifier.GetChild(0)).String() == "*parser.AnnotationContext" {
-			annotationContext := modifier.GetChild(0).(*parser.AnnotationContext)
+		if annotationContext, ok := modifier.GetChild(0).(*parser.AnnotationContext); ok {
 			common_listener.BuildAnnotation(annotationContext)
 		}
 	}
